@@ -459,8 +459,8 @@ Ltac inv_step HE :=
   | apply (Inv_comments _ HE)
   | apply (Inv_tag _ HE); [reflexivity]
   | apply (Inv_peek_la _)
-  | apply (Inv_ignore0 _ HE); [la_last HE]
-  | apply (Inv_ignore1 _ HE); [la_last HE]
+  | apply (Inv_ignore0 _); [la_last HE]
+  | apply (Inv_ignore1 _); [la_last HE]
   | apply (Inv_alt _) | apply (Inv_opt _) | apply (Inv_pair _) | apply (Inv_preceded _) | apply (Inv_terminated _)
   | apply (Inv_many0 _) | apply (Inv_info _) | apply (Inv_expect _) | apply (Inv_ref _)
   | apply (Inv_confusable _)
@@ -481,4 +481,148 @@ Proof. unfold p_ident. inv HE. Qed.
 Lemma Inv_intlit : InvT bd_intlit (p_intlit toks).
 Proof. unfold p_intlit. inv HE. Qed.
 
+Lemma InvAt_rhs off p lhs op :
+  InvT bd_expr p -> ExprB M off lhs -> InvAtT off (ExprB M off) (p_rhs p lhs op).
+Proof.
+  intros Hp Hl. unfold p_rhs.
+  apply InvAt_bind with (P := bd_opt bd_expr M off); [apply (Inv_expect _), Hp|].
+  intros rhs Hr. apply InvAt_ret. intros s [G1 G2] Ho. cbn [ExprB].
+  split; [apply InfoB_mk; lia|]. split; [exact Hl|].
+  destruct rhs as [e|]; [exact Hr|]. cbn [ExprB]. apply InfoB_mk. lia.
+Qed.
+
+Lemma VarB_fold off accesses : forall v0 vinfo,
+  VarB M off v0 -> InfoB M off vinfo ->
+  Forall (fun a : (option (expr * nat) * option token) * info =>
+            OptB (RefB (ExprB M)) off (fst (fst a)) /\ InfoB M off (snd a)) accesses ->
+  VarB M off (fold_left (fun v a => ArrAccess v (fst (fst a)) (extend_range (snd a) vinfo)) accesses v0).
+Proof.
+  induction accesses as [|a r IH]; intros v0 vinfo Hv Hi Ha; cbn [fold_left]; [exact Hv|].
+  inversion Ha as [|? ? [H1 H1'] H2]; subst. apply IH; [|exact Hi|exact H2].
+  cbn [VarB]. split; [apply InfoB_extend; assumption|]. split; [exact Hv | apply ExprB_optref, H1].
+Qed.
+
+Lemma Inv_expr_all f :
+  InvT bd_variable (p_variable toks f) /\ InvT bd_expr (p_primary toks f) /\ InvT bd_expr (p_factor toks f) /\
+  (forall off e, ExprB M off e -> InvAtT off (ExprB M off) (fun s => mul_loop toks f s e)) /\
+  InvT bd_expr (p_mul toks f) /\
+  (forall off e, ExprB M off e -> InvAtT off (ExprB M off) (fun s => add_loop toks f s e)) /\
+  InvT bd_expr (p_add toks f) /\
+  InvT bd_expr (p_comparison toks f).
+Proof.
+  induction f as [|f (IHvar & IHpri & IHfac & IHml & IHmul & IHal & IHadd & IHcmp)].
+  - repeat split; try intros off e He; try apply Inv_fuel; apply InvAt_fuel.
+  - pose proof (Inv_ident) as Hid. pose proof (Inv_intlit) as Hil. repeat split.
+    + rewrite p_variable_S. eapply (Inv_bind _); [inv HE|].
+      intros off [[v0 vinfo] acc] [[Hv Hvi] Hacc]. apply InvAt_ret. intros _ _ _. apply VarB_fold; [exact Hv | exact Hvi |].
+      eapply Forall_impl; [|exact Hacc]. intros a [[Ha _] Hai]. split; assumption.
+    + rewrite p_primary_S. apply (Inv_alt _); [inv HE|]. apply (Inv_alt _); [inv HE|].
+      eapply (Inv_bind _); [inv HE|].
+      intros off [[[x lp] [e y]] inf] [[[_ Hlp] [He _]] Hinf]. cbn [fst snd] in *.
+      apply InvAt_ret. intros _ _ _. cbn [ExprB]. split; [exact Hinf|].
+      destruct e as [e|]; [exact He|]. cbn [ExprB]. apply InfoB_mk. exact (proj1 Hlp).
+    + rewrite p_factor_S. apply (Inv_alt _); [exact IHpri|]. inv HE.
+    + intros off e He.
+      apply InvAt_ext with (p := fun s => match p_tag toks is_mulop s with
+         | POk s1 op => bind (p_rhs (p_factor toks f) e (op_of (tk op)) s1) (fun s2 e' => mul_loop toks f s2 e')
+         | PErr _ => POk s e | PFuel => PFuel end); [intros s; now rewrite mul_loop_S|].
+      apply (InvAt_tag_loop _ HE); [reflexivity | exact He|]. intros t.
+      apply (InvAt_bind toks off (ExprB M off) (ExprB M off) (p_rhs (p_factor toks f) e (op_of (tk t)))).
+      * now apply InvAt_rhs.
+      * intros a Ha. now apply IHml.
+    + rewrite p_mul_S. apply (Inv_bind toks bd_expr bd_expr (p_factor toks f)); [exact IHfac | exact IHml].
+    + intros off e He.
+      apply InvAt_ext with (p := fun s => match p_tag toks is_addop s with
+         | POk s1 op => bind (p_rhs (p_mul toks f) e (op_of (tk op)) s1) (fun s2 e' => add_loop toks f s2 e')
+         | PErr _ => POk s e | PFuel => PFuel end); [intros s; now rewrite add_loop_S|].
+      apply (InvAt_tag_loop _ HE); [reflexivity | exact He|]. intros t.
+      apply (InvAt_bind toks off (ExprB M off) (ExprB M off) (p_rhs (p_mul toks f) e (op_of (tk t)))).
+      * now apply InvAt_rhs.
+      * intros a Ha. now apply IHal.
+    + rewrite p_add_S. apply (Inv_bind toks bd_expr bd_expr (p_mul toks f)); [exact IHmul | exact IHal].
+    + rewrite p_comparison_S. apply (Inv_bind toks bd_expr bd_expr (p_add toks f)); [exact IHadd|].
+      intros off e He. apply (InvAt_tag_loop _ HE); [reflexivity | exact He|]. intros t. now apply InvAt_rhs.
+Qed.
+
+Lemma Inv_variable f : InvT bd_variable (p_variable toks f). Proof. apply Inv_expr_all. Qed.
+Lemma Inv_comparison f : InvT bd_expr (p_comparison toks f). Proof. apply Inv_expr_all. Qed.
+Lemma Inv_expr f : InvT bd_expr (p_expr toks f). Proof. apply Inv_comparison. Qed.
+
+Lemma Inv_texpr f : InvT bd_texpr (p_texpr toks f).
+Proof.
+  pose proof (Inv_ident) as Hid. pose proof (Inv_intlit) as Hil.
+  induction f as [|f IH]; [apply Inv_fuel|]. rewrite p_texpr_S. apply (Inv_alt _); inv HE.
+Qed.
+
+Lemma Inv_list {A} (H : Bd A) fuel (p : parser A) :
+  InvT H p -> InvT (bd_list (bd_ref H)) (p_list toks fuel p).
+Proof.
+  intros Hp. unfold p_list. eapply (Inv_bind _); [inv HE|].
+  intros off head Hh.
+  eapply (InvAt_bind toks off _ _ (p_many0 fuel
+     (p_map (fun r => (fst (fst r), snd r + snd (fst r)))
+        (p_ref (p_preceded (p_tag toks (is_k Comma)) (p_ref p)))))).
+  - apply (Inv_many0 _). eapply (Inv_map _); [inv HE|].
+    intros off' [[a o1] o2] Ha. unfold bd_ref, RefB in *. cbn [fst snd] in *.
+    replace (off' + (o2 + o1)) with (off' + o2 + o1) by lia. exact Ha.
+  - intros tail Ht. apply InvAt_ret. intros _ _ _. constructor; assumption.
+Qed.
+
+Lemma Inv_argument f : InvT bd_expr (p_argument toks f).
+Proof. pose proof (Inv_expr f). unfold p_argument. inv HE. Qed.
+
+Lemma Inv_call f : InvT bd_stmt (p_call toks f).
+Proof.
+  pose proof (Inv_ident) as Hid. pose proof (Inv_list _ f _ (Inv_argument f)).
+  unfold p_call. inv HE.
+Qed.
+
+Lemma Inv_assign f : InvT bd_stmt (p_assign toks f).
+Proof. pose proof (Inv_variable f). pose proof (Inv_expr f). unfold p_assign. inv HE. Qed.
+
+Lemma Inv_stmt f : InvT bd_stmt (p_stmt toks f).
+Proof.
+  induction f as [|f IH]; [apply Inv_fuel|]. rewrite p_stmt_S.
+  pose proof (Inv_expr f). pose proof (Inv_call f). pose proof (Inv_assign f).
+  apply (Inv_alt _); [inv HE|]. apply (Inv_alt _); [inv HE|]. apply (Inv_alt _); [inv HE|].
+  apply (Inv_alt _).
+  { eapply (Inv_map _); [inv HE|]. intros off [[body t] inf] [[Hb _] Hi]. apply StmtB_block. split; assumption. }
+  inv HE.
+Qed.
+
+Lemma Inv_vardecl f : InvT bd_vardecl (p_vardecl toks f).
+Proof. pose proof (Inv_ident) as Hid. pose proof (Inv_texpr f). unfold p_vardecl. inv HE. Qed.
+
+Lemma Inv_paramdecl f : InvT bd_paramdecl (p_paramdecl toks f).
+Proof. pose proof (Inv_ident) as Hid. pose proof (Inv_texpr f). unfold p_paramdecl. inv HE. Qed.
+
+Lemma Inv_typedecl f : InvT bd_typedecl (p_typedecl toks f).
+Proof. pose proof (Inv_ident) as Hid. pose proof (Inv_texpr f). unfold p_typedecl. inv HE. Qed.
+
+Lemma Inv_procdecl f : InvT bd_procdecl (p_procdecl toks f).
+Proof.
+  pose proof (Inv_ident) as Hid. pose proof (Inv_list _ f _ (Inv_paramdecl f)).
+  pose proof (Inv_vardecl f). pose proof (Inv_stmt f). unfold p_procdecl. inv HE.
+Qed.
+
+Lemma Inv_gdecl f : InvT bd_gdecl (p_gdecl toks f).
+Proof. pose proof (Inv_typedecl f). pose proof (Inv_procdecl f). unfold p_gdecl. inv HE. Qed.
+
+Lemma Inv_decls f f' : InvT (bd_pair (bd_list (bd_ref bd_gdecl)) bd_info) (p_info (p_many0 f (p_ref (p_gdecl toks f')))).
+Proof. pose proof (Inv_gdecl f'). inv HE. Qed.
+
 End NonTerminalsB.
+
+(* R2 for the parser: all ranges of the tree `parse` returns on an EofLast token list are in bounds *)
+Theorem parse_bounded toks prog : EofLast toks -> parse toks = Done prog -> ProgB (length toks - 1) prog.
+Proof.
+  intros HE. unfold parse.
+  destruct (p_program toks (parse_fuel toks) {| pos := 0; refp := 0; ebuf := [] |}) as [s p|e|] eqn:E;
+    [|discriminate|discriminate].
+  intros [= <-]. unfold p_program in E. apply p_map_ok in E as ([[ds inf] u] & E & ->).
+  apply p_pair_ok in E as (s1 & E & _). cbn [fst snd] in *.
+  pose proof (Inv_decls toks HE (parse_fuel toks) (parse_fuel toks) 0 {| pos := 0; refp := 0; ebuf := [] |} 0) as H.
+  rewrite E in H. cbn [postc] in H.
+  destruct H as (_ & _ & [Hd Hi]); [split; cbn [pos refp]; lia | reflexivity | lia | constructor|].
+  split; [exact Hi | exact Hd].
+Qed.
